@@ -2,8 +2,11 @@ package main
 
 import (
 	"encoding/json"
+	"go/types"
+
 	"flag"
 	"fmt"
+	"golang.org/x/tools/go/ssa"
 	"os"
 	"path/filepath"
 	"sort"
@@ -79,7 +82,7 @@ func (ex *Exec) verifyFunc(key string) error {
 	sp := ex.specs.Funcs[key]
 	ex.curKey = key
 	ex.paths = 0
-	st := &State{ex: ex, heap: map[string]string{}, cnt: map[string]string{}, published: map[string]bool{}}
+	st := &State{ex: ex, heap: map[string]string{}, cnt: map[string]string{}, published: map[string]bool{}, cells: map[string]Val{}}
 	var args []Val
 	for _, p := range fn.Params {
 		args = append(args, ex.symVal(st, p.Type(), "p."+p.Name()))
@@ -92,6 +95,8 @@ func (ex *Exec) verifyFunc(key string) error {
 	}
 	// pre-frame for evaluating requires
 	pf := ex.pseudoFrame(fn, key, sp, args, binds, st)
+	ex.assumeObjInvs(st, pf, fn, args)
+	ex.closureEntry(st, pf, fn, binds, sp, nil, nil)
 	if sp != nil {
 		for _, l := range sp.Holds {
 			// the lock of the receiver is held on entry; its invariant holds
@@ -113,7 +118,6 @@ func (ex *Exec) verifyFunc(key string) error {
 			st.pinned = append(st.pinned, v.T)
 		}
 	}
-	ex.probeTerms(st, pf, key)
 	nRet := 0
 	ex.callBody(st, fn, args, binds, 0, true, func(st2 *State, fr *Frame, ret Val) {
 		nRet++
@@ -121,7 +125,8 @@ func (ex *Exec) verifyFunc(key string) error {
 		if sp != nil {
 			for _, c := range sp.Ensures {
 				g := ex.evalClause(st2, fr, c, nil)
-				ex.oblige(st2, "ensures", key+"/"+c.name(), c.Labels, g, c, ex.posOf(fr.retInstr))
+				ob := ex.oblige(st2, "ensures", key+"/"+c.name(), c.Labels, g, c, ex.posOf(fr.retInstr))
+				ex.attachProbes(st2, fr, ob)
 			}
 			for _, l := range sp.Holds {
 				found := false
@@ -243,8 +248,19 @@ func cmdCheck(args []string) int {
 			keys = append(keys, k)
 		}
 	}
-	sort.Strings(keys)
 	ex := newExec(prog, specs)
+	if *only == "" {
+		have := map[string]bool{}
+		for _, k := range keys {
+			have[k] = true
+		}
+		for _, k := range ex.funcsUsingSharedSpecs(P) {
+			if !have[k] {
+				keys = append(keys, k)
+			}
+		}
+	}
+	sort.Strings(keys)
 	ex.openFindings = open
 	ex.disciplineOn = P == "C15"
 	ex.propFilter = func(labels []string) bool {
@@ -292,7 +308,7 @@ func cmdCheck(args []string) int {
 		fmt.Println("ERROR contract-drift: spec errors (see above)")
 		drift = true
 	}
-	cfg := SolveCfg{T1: 10 * time.Second, T2: 20 * time.Second, Seed: seed, Workers: 8, SaveDir: *save}
+	cfg := SolveCfg{T1: 10 * time.Second, T2: 12 * time.Second, Seed: seed, Workers: 8, SaveDir: *save}
 	if *tier == "thorough" {
 		cfg.T1, cfg.T2 = 30*time.Second, 90*time.Second
 	}
@@ -576,6 +592,7 @@ func cmdDump(args []string) int {
 		return 2
 	}
 	ex := newExec(prog, specs)
+	ex.dbgModSet(*fn)
 	if err := ex.verifyFunc(*fn); err != nil {
 		fmt.Println("ERROR", err)
 		return 2
@@ -603,4 +620,158 @@ func cmdDump(args []string) int {
 		fmt.Println("used:", n)
 	}
 	return 0
+}
+
+// assumeObjInvs: object invariants of pointer-typed parameters hold on entry; a method's receiver is non-nil.
+func (ex *Exec) assumeObjInvs(st *State, pf *Frame, fn *ssa.Function, args []Val) {
+	for i, p := range fn.Params {
+		if i >= len(args) {
+			break
+		}
+		el := derefType(p.Type())
+		if el == nil {
+			continue
+		}
+		invs := ex.specs.ObjInvs[typeKey(el)]
+		if len(invs) == 0 {
+			continue
+		}
+		isRecv := i == 0 && fn.Signature.Recv() != nil
+		for _, c := range invs {
+			g := ex.evalClause(st, pf, c, map[string]Val{"self": args[i]})
+			if isRecv {
+				st.assume("(distinct " + args[i].T + " 0)")
+				st.assume(g)
+			} else {
+				st.assume(smtImp("(distinct "+args[i].T+" 0)", g))
+			}
+		}
+	}
+}
+
+// obligeObjInvs: at a call into a function under contract the arguments satisfy their object invariants.
+func (ex *Exec) obligeObjInvs(st *State, fr *Frame, pf *Frame, fn *ssa.Function, key string, ord int, args []Val, instr ssa.Instruction) {
+	for i, p := range fn.Params {
+		if i >= len(args) {
+			break
+		}
+		el := derefType(p.Type())
+		if el == nil {
+			continue
+		}
+		invs := ex.specs.ObjInvs[typeKey(el)]
+		isRecv := i == 0 && fn.Signature.Recv() != nil
+		for _, c := range invs {
+			g := ex.evalClause(st, pf, c, map[string]Val{"self": args[i]})
+			if isRecv {
+				g = smtAnd("(distinct "+args[i].T+" 0)", g)
+			} else {
+				g = smtImp("(distinct "+args[i].T+" 0)", g)
+			}
+			ex.oblige(st, "objinv", fmt.Sprintf("%s/call.%s#%d.objinv.%s.%s", fr.key, key, ord, p.Name(), c.name()), c.Labels, g, c, ex.posOf(instr))
+		}
+	}
+}
+
+// funcsUsingSharedSpecs: functions that must be verified for property P although their own
+// contract does not mention it, because they take a lock whose invariant carries P or send on
+// channels while a channel-class invariant carries P.
+func (ex *Exec) funcsUsingSharedSpecs(P string) []string {
+	lockKeys := map[string]bool{}
+	for k, ls := range ex.specs.Locks {
+		for _, c := range ls.Inv {
+			if c.hasProp(P) {
+				lockKeys[k] = true
+			}
+		}
+	}
+	classP := false
+	for _, cc := range ex.specs.ClassList {
+		if cc.MsgInv.hasProp(P) {
+			classP = true
+		}
+	}
+	if len(lockKeys) == 0 && !classP {
+		return nil
+	}
+	var out []string
+	for _, k := range ex.prog.scopeFuncKeys() {
+		fn := ex.prog.Funcs[k]
+		if sp := ex.specs.Funcs[k]; sp != nil && sp.Trusted {
+			continue
+		}
+		hit := false
+		for _, b := range fn.Blocks {
+			for _, in := range b.Instrs {
+				switch x := in.(type) {
+				case *ssa.Send:
+					if classP {
+						hit = true
+					}
+				case *ssa.Select:
+					if classP {
+						for _, s := range x.States {
+							if s.Dir == types.SendOnly {
+								hit = true
+							}
+						}
+					}
+				case ssa.CallInstruction:
+					c := x.Common()
+					if f := c.StaticCallee(); f != nil && (f.String() == "(*sync.Mutex).Lock" || f.String() == "(*sync.Mutex).Unlock") {
+						if r, p, ok := staticRoot(c.Args[0]); ok && lockKeys[r+"."+strings.TrimSuffix(p, ".")] {
+							hit = true
+						}
+					}
+				}
+			}
+		}
+		if hit {
+			out = append(out, k)
+		}
+	}
+	return out
+}
+
+// closureEntry: facts about captured variables. With oblige == nil they are assumed (closure
+// verified on its own); otherwise they are proved at the MakeClosure site in the parent.
+func (ex *Exec) closureEntry(st *State, pf *Frame, fn *ssa.Function, binds []Val, sp *FuncSpec, parent *Frame, instr ssa.Instruction) {
+	if len(fn.FreeVars) == 0 {
+		return
+	}
+	prove := parent != nil
+	key := ex.prog.Keys[fn]
+	for i, fv := range fn.FreeVars {
+		if i >= len(binds) {
+			break
+		}
+		cellT := derefType(fv.Type()) // type of the captured variable
+		el := derefType(cellT)
+		if el == nil {
+			continue
+		}
+		invs := ex.specs.ObjInvs[typeKey(el)]
+		if len(invs) == 0 {
+			continue
+		}
+		v := ex.load(st, binds[i])
+		for _, c := range invs {
+			g := smtAnd("(distinct "+v.T+" 0)", ex.evalClause(st, pf, c, map[string]Val{"self": v}))
+			if prove {
+				ex.oblige(st, "objinv", fmt.Sprintf("%s/closure.%s.objinv.%s.%s", parent.key, key, fv.Name(), c.name()), c.Labels, g, c, ex.posOf(instr))
+			} else {
+				st.assume(g)
+			}
+		}
+	}
+	if sp != nil {
+		for _, c := range sp.Captures {
+			g := ex.evalClause(st, pf, c, nil)
+			if prove {
+				ex.oblige(st, "captures", fmt.Sprintf("%s/closure.%s.%s", parent.key, key, c.name()), c.Labels, g, c, ex.posOf(instr))
+			} else {
+				st.assume(g)
+			}
+		}
+	}
 }
